@@ -22,7 +22,8 @@ def sharded(worker, prop, n_quick, n_thorough, max_s_quick=150, max_s_thorough=1
 
 def replay_with(worker, prop, profile="dev"):
     def jobs(ctx, case, path):
-        return [dict(worker=worker, prop=prop, args=["--replay", path, "--seed", ctx["seed"]], profile=profile)]
+        env = dict((case.get("case") or {}).get("env") or {})
+        return [dict(worker=worker, prop=prop, args=["--replay", path, "--seed", ctx["seed"]], profile=profile, env=env)]
     return jobs
 
 
@@ -109,7 +110,7 @@ PLANS["C06"] = dict(
          "LR: the token sequence the real parser acted on (leaves of its tree), or its error offset, must equal an oracle-side LR walk of the dumped table driven by the documented selection "
          "(priority > most specific > longest match > grammar order) over the terminals expected in the current state. GLR (flat family, all strategies optional): the set of token paths over all trees and solutions() "
          "must equal the set of survivor paths. non-trivial = distinct (terminal set, settings) having a position where >= 2 expected terminals match and the strategies change the winner",
-    assumptions=["regex terminals are matched at the current position; a top-level alternation `A|B` is always parenthesised (the book documents that `^` is simply prefixed and prescribes the parentheses)",
+    assumptions=["regex terminals are matched at the current position (top-level alternations are written both bare and parenthesised)",
                  "no regex of the pool matches the empty string; no two string recognisers are equal",
                  "two grammar families: flat (S: S T | T; T: t1|..|tn, every state expects every terminal) and contextual ((X Y)+ with disjoint expected sets); GLR is judged on the flat family only, "
                  "because there the survivors form a state-independent lattice",
@@ -125,7 +126,6 @@ PLANS["C09"] = dict(
          "non-trivial = distinct grammar using sugar, rule-level meta-data, inline literals or assignments",
     assumptions=["terminals are single-letter string literals", "user rule names never collide with helper names (A1, A0, AOpt)",
                  "fence of listed finding sep-helper-name: all + / * uses of one symbol carry the same separator setting",
-                 "fence of listed finding boolconst-false: the word `false` is never written in a grammar text",
                  "the `nops` the book writes on `A0: A1` is not judged (it does not change the language of the expansion)",
                  "language comparison strips meta-data (priorities legitimately remove parses) and is skipped when the expansion is cyclic or epsilon-ambiguous"],
     floor=dict(quick=100, thorough=1000),
@@ -162,7 +162,7 @@ PLANS["C15"] = dict(
          "unterminated comments, 10^5-byte inputs, 20000-token deep recursions. Debug (overflow checks, debug_assert, one shard with RUSTEMO_TRACE=1) and release builds. "
          "non-trivial = distinct (grammar, algorithm, lexer mode, outcome kind)",
     assumptions=["hostile lexers keep the token kind inside the generated TokenKind range and never return zero-width non-STOP tokens (outside the statement of C15)",
-                 "fence of listed finding lr-epsilon-loop: LR grammars of this workload carry no meta-data; conflicts are resolved by prefer_shifts only",
+                 "fence of listed findings lr-epsilon-loop / lr-reduction-cycle-cyclic-grammar: LR grammars of this workload carry no meta-data, conflicts are resolved by prefer_shifts only, and cyclic grammars (reference analysis) are only compiled for GLR",
                  "Forest::solutions() and tree extraction are not part of parse() and are not called here"],
     floor=dict(quick=300, thorough=1500),
 )
